@@ -271,7 +271,7 @@ func LiveMPD(a *asset, mpdName string, cfg *ResponseConfig, drmCfg *drm.DrmConfi
 				return nil, fmt.Errorf("adjustASForTimelineTime: %w", err)
 			}
 			if asIdx == 0 {
-				mpd.PublishTime = m.ConvertToDateTimeMS(int64(math.Round(calcPublishTime(cfg, se.lsi) * 1000)))
+				mpd.PublishTime = m.ConvertToDateTimeMS(calcPublishTimeMS(cfg, se, wTimes.nowMS, *mpd.TimeShiftBufferDepth))
 			}
 		case timeLineNumber:
 			err := adjustAdaptationSetForTimelineNr(se, as)
@@ -283,7 +283,7 @@ func LiveMPD(a *asset, mpdName string, cfg *ResponseConfig, drmCfg *drm.DrmConfi
 				*as.SegmentTemplate.StartNumber += uint32(cfg.getStartNr())
 			}
 			if asIdx == 0 {
-				mpd.PublishTime = m.ConvertToDateTimeMS(int64(math.Round(calcPublishTime(cfg, se.lsi) * 1000)))
+				mpd.PublishTime = m.ConvertToDateTimeMS(calcPublishTimeMS(cfg, se, wTimes.nowMS, *mpd.TimeShiftBufferDepth))
 			}
 		case segmentNumber:
 			err := adjustAdaptationSetForSegmentNumber(cfg, a, as)
@@ -706,7 +706,31 @@ func addTimeSubs(cfg *ResponseConfig, a *asset, period *m.Period, languages []st
 	return nil
 }
 
-// calcPublishTime calculates the last time there was a change in the manifest in seconds.
+// calcPublishTimeMS calculates the last time there was a change in a SegmentTimeline manifest in milliseconds.
+// The timeline changes when a new segment becomes available at its end, and when its first entry is replaced because
+// the previous first segment left the time-shift window.
+func calcPublishTimeMS(cfg *ResponseConfig, se segEntries, nowMS int, tsbd m.Duration) int64 {
+	publishMS := int64(math.Round(calcPublishTime(cfg, se.lsi) * 1000))
+	if len(se.entries) == 0 || se.entries[0].T == nil || se.mediaTimescale == 0 {
+		return publishMS
+	}
+	// The first entry became the first one when its end passed the start of the window (end + tsbd - ato).
+	// If that is still ahead, the entry has been the first one since the start of the stream.
+	first := se.entries[0]
+	ts := uint64(se.mediaTimescale)
+	firstEndMS := int64(((*first.T+first.D)*1000 + ts - 1) / ts)
+	atoMS := int64(0)
+	if ato := cfg.getAvailabilityTimeOffsetS(); ato > 0 && !math.IsInf(ato, +1) {
+		atoMS = int64(ato * 1000)
+	}
+	firstChangeMS := firstEndMS + int64(cfg.StartTimeS)*1000 + int64(tsbd)/1_000_000 - atoMS
+	if firstChangeMS <= int64(nowMS) && firstChangeMS > publishMS {
+		publishMS = firstChangeMS
+	}
+	return publishMS
+}
+
+// calcPublishTime calculates the last time the last segment of the manifest changed in seconds.
 func calcPublishTime(cfg *ResponseConfig, lsi lastSegInfo) float64 {
 	switch cfg.liveMPDType() {
 	case segmentNumber:
